@@ -269,3 +269,117 @@ REG.spec('tmgr/staging_output/default.py:Default.work#triage',
                      'no_staging_tasks == at_head("1", no_staging_tasks)', 'staging_tasks == at_head("1", staging_tasks)']},
     opts     = dict(merge='scalars'),
     serves   = ['C11'])
+
+
+# ------------------------------------------------------------------------------
+# client output stager: what state a task is handed on with (C05: the final state
+# the application sees is the outcome the agent determined, whatever was staged)
+OAdv = T.Rec('OAdv', uid=T.Str, state=OStr)
+
+def _o_advance(ex, node, st):
+    """self.advance(things, state=None, publish=.., push=..) (A12): sets the state if
+    one is given, and reports each thing once with the state it then has"""
+    import ast as _ast
+    things = ex.ev(node.args[0], st)
+    snode = node.args[1] if len(node.args) > 1 else next((k.value for k in node.keywords if k.arg == 'state'), None)
+    state = C.coerce(ex.ev(snode, st), OStr) if snode is not None else None
+    log = ex.get_var(st, 'adv_log')
+    lty = log.ty
+    l0 = lty.len(log.term)
+    if isinstance(things.ty, C.TRec):
+        if state is not None:
+            p = ex.ev_path(node.args[0], st)
+            ex.write_path(st, p[0], p[1] + (('f', 'state'),), state)
+            things = ex.read_path(st, *p)
+        e = OAdv.mk(things.ty.get(things.term, 'uid'), things.ty.get(things.term, 'state'))
+        st.env['adv_log'] = Val(lty, lty.mk(z3.Store(lty.arr(log.term), l0, e), l0 + 1))
+        return C.NONE
+    if state is not None:
+        raise C.OutsideSubset('bulk advance with a state')
+    n = things.ty.len(things.term)
+    i = z3.Int(C.fresh_name('i'))
+    out = ex.fresh_wf(st, lty, 'adv_log')
+    st.assume(lty.len(out.term) == l0 + n)
+    st.assume(z3.ForAll([i], z3.Implies(z3.And(0 <= i, i < l0),
+              z3.Select(lty.arr(out.term), i) == z3.Select(lty.arr(log.term), i))))
+    el = z3.Select(things.ty.arr(things.term), i - l0)
+    st.assume(z3.ForAll([i], z3.Implies(z3.And(l0 <= i, i < l0 + n),
+              z3.Select(lty.arr(out.term), i) == OAdv.mk(things.ty.elem.get(el, 'uid'), things.ty.elem.get(el, 'state'))),
+              patterns=[z3.Select(lty.arr(out.term), i)]))
+    st.env['adv_log'] = out
+    return C.NONE
+_o_advance.mutates = ('adv_log',)
+
+_OUT = 'tmgr/staging_output/default.py:Default.'
+
+REG.spec(_OUT + '_handle_task#final',
+    fragment = 'after the staging loop',
+    fragment_after = 'for sd in actionables:',
+    params   = dict(task=OTask),
+    ghost    = dict(adv_log=T.List(OAdv)),
+    effects  = {'self.advance': _o_advance},
+    modifies = ['task', 'adv_log'],
+    raises   = {'KeyError': 'False'},
+    ensures  = [
+      ('a-staged-task-is-handed-on-once-with-the-outcome-the-agent-determined',
+       'len(adv_log) == len(old(adv_log)) + 1 and adv_log[len(old(adv_log))].uid == old(task).uid and '
+       'adv_log[len(old(adv_log))].state == old(task).target_state and task.state == old(task).target_state'),
+      ('the-outcome-itself-is-not-rewritten', 'task.target_state == old(task).target_state and task.uid == old(task).uid'),
+    ],
+    serves   = ['C05', 'C11'])
+
+REG.spec(_OUT + 'work#pass-on',
+    fragment = 'if no_staging_tasks:',
+    params   = dict(no_staging_tasks=T.List(OTask)),
+    ghost    = dict(adv_log=T.List(OAdv)),
+    effects  = {'self.advance': _o_advance},
+    modifies = ['no_staging_tasks', 'adv_log'],
+    raises   = {},
+    ensures  = [
+      ('every-task-without-staging-is-handed-on-once-with-the-outcome-the-agent-determined',
+       'len(adv_log) == len(old(adv_log)) + len(no_staging_tasks) and len(no_staging_tasks) == len(old(no_staging_tasks)) and '
+       'forall(lambda k: implies(0 <= k < len(no_staging_tasks), adv_log[len(old(adv_log)) + k].uid == old(no_staging_tasks)[k].uid and '
+       'adv_log[len(old(adv_log)) + k].state == old(no_staging_tasks)[k].target_state))'),
+    ],
+    loops = {'1': ['len(no_staging_tasks) == len(old(no_staging_tasks))', 'adv_log == old(adv_log)',
+                   'forall(lambda k: implies(0 <= k < len(no_staging_tasks), no_staging_tasks[k].uid == old(no_staging_tasks)[k].uid and '
+                   'no_staging_tasks[k].target_state == old(no_staging_tasks)[k].target_state))',
+                   'forall(lambda k: implies(0 <= k < i_task, no_staging_tasks[k].state == old(no_staging_tasks)[k].target_state))']},
+    serves   = ['C05', 'C11'])
+
+
+def _o_handle_task(ex, node, st):
+    """self._handle_task(task, actionables): the staging operations may raise (then
+    nothing was reported and the task is unchanged: the reporting statements are
+    the last of the function); otherwise the function ends with its reporting
+    statements, by their contract (_handle_task#final above)"""
+    import ast
+    from pyvc.calls import call_contract
+    e = st.fork(); e.guards = []
+    e.env = dict(e.env)
+    e.env['stage_failed'] = Val(T.Bool, z3.BoolVal(True))
+    ex.exits.append(('Exception', e, ex.cur_line))
+    call = ast.Call(func=node.func, args=list(node.args[:1]), keywords=[])
+    ast.copy_location(call, node)
+    return call_contract(ex, st, ex.reg.get(_OUT + '_handle_task#final'), call)
+_o_handle_task.mutates = ('task', 'adv_log', 'stage_failed')
+
+REG.spec(_OUT + 'work#staged',
+    fragment = 'try:',
+    params   = dict(task=OTask, actionables=T.List(SDA)),
+    ghost    = dict(adv_log=T.List(OAdv), stage_failed=T.Bool),
+    calls    = {'self._handle_task': _o_handle_task},
+    effects  = {'self.advance': _o_advance},
+    requires = ['not stage_failed'],
+    modifies = ['task', 'adv_log', 'stage_failed'],
+    raises   = {},
+    no_raise_is_property = True,
+    ensures  = [
+      ('a-staged-task-ends-with-the-outcome-the-agent-determined-or-failed-if-staging-broke',
+       'task.state == ite(stage_failed, FAILED, old(task).target_state)'),
+      ('it-is-reported-and-every-report-says-the-state-it-ends-with',
+       'len(adv_log) > len(old(adv_log)) and forall(lambda k: implies(len(old(adv_log)) <= k < len(adv_log), '
+       'adv_log[k].uid == old(task).uid and adv_log[k].state == task.state))'),
+      ('earlier-reports-kept', 'forall(lambda k: implies(0 <= k < len(old(adv_log)), adv_log[k] == old(adv_log)[k]))'),
+    ],
+    serves   = ['C05', 'C11'])
